@@ -165,6 +165,8 @@ class RefHttpServer:
 
     def __init__(self):
         self.buf, self.cur, self.connected = b"", None, True
+        self.rejected = 0          # deliveries at which a request line was rejected (400 sent or dropped)
+        self.answered400 = False
 
     def deliver(self, chunk):
         """returns (request events, bytes expected on the wire or None = nothing)"""
@@ -178,8 +180,10 @@ class RefHttpServer:
             if self.cur is None:
                 m = REQLINE.fullmatch(ln)
                 if not m:
+                    self.rejected += 1
                     if self.connected:
                         wire = ("raw", b"HTTP/1.1 400 Bad Request\r\n\r\n")
+                        self.answered400 = True
                     self.connected = False
                     break                                  # nothing consumed
                 target = m.group(2)
@@ -356,6 +360,15 @@ def oracle(case, lines):
                 return (i, "connected=%s peer-sees-EOF=%s, but an error was %sreported: the default error callback must shut the "
                            "connection down exactly when the first error is reported" % (m.group(3), m.group(4), "" if first_err else "not "))
         elif t[0] == "D" and kind == "hsrv":
+            if out == "D skipped (aborted)":
+                continue
+            if out.startswith("D ASSERT "):
+                # an assertion inside muduo fired during this delivery (the process would abort)
+                if out == "D ASSERT HttpRequest::setMethod method_ == kInvalid" and srv.rejected > 0:
+                    return (i, "F22: HttpServer keeps reading after a rejected request line without resetting the context: "
+                               "delivery %d aborts in assert(method_ == kInvalid), HttpRequest::setMethod%s"
+                            % (i + 1, "" if srv.answered400 else " [400 dropped: connection already shut down]"))
+                return (i, "an assertion inside muduo failed during delivery %d: %s" % (i + 1, out[9:]))
             m = DSRV.match(out)
             if not m:
                 return (i, "unparsable %r" % out)
@@ -877,7 +890,8 @@ def run(chk, replay=None):
     pr = chk.prove()
     model = vlib.build_model("C18")
     impl = vlib.build_driver("C18_driver", ["C18_driver.cc"], variant="asan",
-                             components=("base", "net", "protobuf", "protorpc", "http"), libs=["-lprotobuf", "-lz"])
+                             components=("base", "net", "protobuf", "protorpc", "http"), libs=["-lprotobuf", "-lz"],
+                             wrap=["__assert_fail"])
     t0 = time.time()
     if replay:
         cases = load_case_file(replay)
@@ -898,25 +912,12 @@ def run(chk, replay=None):
     corr_bad, oracle_bad, sigs = [], [], set()
     known = {k["key"]: k["text"] for k in vlib.known_findings() if k["property"] == "C18"}
     F_HTTP = "http-bytes-after-rejected-request-line"
-    f_http_hits = 0
+    f_http_hits = f_http_dropped = 0
     for c in cases:
         chk.cov["evaluations"] += 1
         if c.cid in crashes:
             rc, se, partial = crashes[c.cid]
             partial = [l for l in partial if l != ""]
-            lm = model_out.get(c.cid) or []
-            # finding http-bytes-after-rejected-request-line, matched by its signature: the assertion of
-            # HttpRequest::setMethod, in an hsrv case, at exactly the delivery where the faithful model predicts it,
-            # everything before it equal to the model's trace
-            if (c.header.startswith("hsrv") and "setMethod" in se and "method_ == kInvalid" in se
-                    and len(partial) < len(lm) and lm[len(partial)].startswith("D ASSERT") and partial == lm[:len(partial)]):
-                f_http_hits += 1
-                if F_HTTP in known:
-                    continue
-                oracle_bad.append((c, len(partial), "HttpServer keeps reading after a 400 without resetting the context: delivery %d "
-                                   "aborts in assert(method_ == kInvalid), HttpRequest::setMethod (finding %s, see findings/C18.md)"
-                                   % (len(partial), F_HTTP)))
-                continue
             key = [l.strip() for l in se.splitlines() if re.search(r"ERROR: AddressSanitizer|runtime error:|Assertion|SUMMARY:", l)]
             oracle_bad.append((c, len(partial), "implementation crashed (rc=%s) after %d output lines: %s"
                                % (rc, len(partial), " | ".join(key[:3]) or se[-600:])))
@@ -927,7 +928,16 @@ def run(chk, replay=None):
             oracle_bad.append((c, 0, "no implementation output"))
             continue
         o = oracle(c, li)
-        if o is not None:
+        if o is not None and o[1].startswith("F22:") and lm == li:
+            # finding F-22, matched by its signature: the assertion of HttpRequest::setMethod in an hsrv case, after the
+            # independent reference server saw a rejected request line, at exactly the delivery where the faithful model
+            # predicts it (the model's trace equals the implementation's on every line)
+            f_http_hits += 1
+            if "400 dropped" in o[1]:
+                f_http_dropped += 1
+            if F_HTTP not in known:
+                oracle_bad.append((c, o[0], o[1][5:] + " (finding %s, see findings/C18.md)" % F_HTTP))
+        elif o is not None:
             oracle_bad.append((c, o[0], o[1]))
         if lm is None or li != lm:
             idx = next((i for i in range(min(len(li), len(lm or []))) if li[i] != lm[i]), 0)
@@ -941,7 +951,8 @@ def run(chk, replay=None):
             if len(chk.cov["samples"]) < 6 and c.tag not in [x.get("label") for x in chk.cov["samples"]] and len(c.ops) <= 6:
                 chk.sample({"label": c.tag, "case": c.text().split("\n")[:-1], "impl": li[1:-1]})
     if f_http_hits and F_HTTP in known:
-        chk.known(F_HTTP, "key=%s %s (%d cases this run)" % (F_HTTP, known[F_HTTP], f_http_hits))
+        chk.known(F_HTTP, "key=%s %s (%d cases this run, %d of them with the 400 dropped because the connection had already been "
+                          "shut down by an earlier close response)" % (F_HTTP, known[F_HTTP], f_http_hits, f_http_dropped))
     t3 = time.time()
     chk.cov["phase_s"] = {"generate": round(t1 - t0, 1), "run_both": round(t2 - t1, 1), "oracle": round(t3 - t2, 1)}
     chk.cov["distinct_nontrivial"] = len(sigs)
